@@ -1124,21 +1124,62 @@ func CheckErrors(run *core.Run, prog *load.Program) {
 		return true
 	})
 	run.Check("G-ERR/names-the-type", "LookupInterface:error-returns", prog.Pos(f.Decl.Pos()), n >= 2, fmt.Sprintf("LookupInterface has %d error returns, want at least 2 (unknown name, not an interface)", n))
-	// unknown object and non-interface are both tested before the assertion
-	nilGuard, ifaceGuard := false, false
+	// unknown object and non-interface: under either assumption no success return (nil error) is reachable
+	var objVar *types.Var
 	ast.Inspect(f.Decl.Body, func(x ast.Node) bool {
-		if is, ok := x.(*ast.IfStmt); ok {
-			c := types.ExprString(is.Cond)
-			if strings.Contains(c, "== nil") {
-				nilGuard = true
-			}
-			if strings.Contains(c, "IsInterface(") {
-				ifaceGuard = true
+		as, ok := x.(*ast.AssignStmt)
+		if !ok || len(as.Lhs) != 1 || len(as.Rhs) != 1 {
+			return true
+		}
+		call, ok := ast.Unparen(as.Rhs[0]).(*ast.CallExpr)
+		if !ok {
+			return true
+		}
+		if fn, ok := typeutil.Callee(info, call).(*types.Func); ok && fn.FullName() == "(*go/types.Scope).Lookup" {
+			if id, ok := ast.Unparen(as.Lhs[0]).(*ast.Ident); ok {
+				objVar, _ = info.ObjectOf(id).(*types.Var)
 			}
 		}
 		return true
 	})
-	run.Check("G-ERR/guards", "LookupInterface", prog.Pos(f.Decl.Pos()), nilGuard && ifaceGuard, "LookupInterface does not test for an unknown name and for a non-interface before using the type")
+	successReachable := func(dec func(ast.Expr) (bool, bool)) int {
+		r := f.Explore(0, 0, cfgx.Cuts{Decide: dec})
+		n := 0
+		for _, ex := range r.Exits {
+			rs, ok := ex.Node.(*ast.ReturnStmt)
+			if !ok || len(rs.Results) == 0 {
+				continue
+			}
+			if id, ok := ast.Unparen(rs.Results[len(rs.Results)-1]).(*ast.Ident); ok {
+				if _, isNil := info.Uses[id].(*types.Nil); isNil {
+					n++
+				}
+			}
+		}
+		return n
+	}
+	nilGuard, ifaceGuard := false, false
+	if objVar != nil {
+		nilDec := func(cond ast.Expr) (bool, bool) {
+			return callOracleExpr(func(e ast.Expr) (bool, bool, bool) {
+				if isT, nonNilTrue := cfgx.NilTestOf(info, e, objVar); isT {
+					return true, !nonNilTrue, nonNilTrue // the object is nil
+				}
+				return false, false, false
+			})(cond)
+		}
+		nilGuard = successReachable(nilDec) == 0
+	}
+	isIface := func(e ast.Expr) bool {
+		call, ok := ast.Unparen(e).(*ast.CallExpr)
+		if !ok {
+			return false
+		}
+		fn, _ := typeutil.Callee(info, call).(*types.Func)
+		return fn != nil && fn.FullName() == "go/types.IsInterface"
+	}
+	ifaceGuard = successReachable(callOracle(isIface, false)) == 0
+	run.Check("G-ERR/guards", "LookupInterface", prog.Pos(f.Decl.Pos()), nilGuard && ifaceGuard, fmt.Sprintf("LookupInterface can return without an error for an unknown name (guarded: %v) or for a type that is not an interface (guarded: %v)", nilGuard, ifaceGuard))
 }
 
 // boundedCounter: the recursive call passes v+1 for a parameter v and sits
@@ -1224,7 +1265,7 @@ func CheckAliasAware(run *core.Run, prog *load.Program) {
 			}
 			return true
 		})
-		run.Check("G-ALIAS-AWARE/typeparams", "LookupInterface:"+types.ExprString(ta), prog.Pos(ta.Pos()), okUn || alias, "the type parameters of the requested interface are read through "+types.ExprString(ta)+": for a generic alias (type A[T any] = I[T]) the object's type is a *types.Alias, the assertion fails silently and the mock loses its type parameters")
+		run.Check("G-ALIAS-AWARE/typeparams", "LookupInterface:assert-*types.Named", prog.Pos(ta.Pos()), okUn || alias, "the type parameters of the requested interface are read through "+types.ExprString(ta)+": for a generic alias (type A[T any] = I[T]) the object's type is a *types.Alias, the assertion fails silently and the mock loses its type parameters")
 		return true
 	})
 	run.Check("G-ALIAS-AWARE/typeparams", "LookupInterface:site", prog.Pos(f.Decl.Pos()), n > 0 || true, "")
@@ -1269,9 +1310,24 @@ func assertionImplied(info *types.Info, fd *ast.FuncDecl, ta *ast.TypeAssertExpr
 // CheckLoadErrorsFatal: a package that was loaded with errors is never used —
 // with pkgs[0].Errors non-empty the loader returns a non-nil error on every path.
 func CheckLoadErrorsFatal(run *core.Run, prog *load.Program) {
-	f, _, info := moqFunc(prog, load.PkgRegistry, "pkgInfoFromPath")
+	// by role: the registry function that calls packages.Load
+	var f *cfgx.Func
+	var info *types.Info
+	funcsOf(prog, func(pkgPath string, fi *types.Info, fd *ast.FuncDecl, fn *types.Func) {
+		if pkgPath != load.PkgRegistry || f != nil {
+			return
+		}
+		ast.Inspect(fd.Body, func(n ast.Node) bool {
+			if call, ok := n.(*ast.CallExpr); ok {
+				if c, ok := typeutil.Callee(fi, call).(*types.Func); ok && c.FullName() == "golang.org/x/tools/go/packages.Load" {
+					f, info = cfgx.New(fi, fd), fi
+				}
+			}
+			return true
+		})
+	})
 	if f == nil {
-		run.Undecided("G-LOAD/errors-fatal", "role", "internal/registry/registry.go", "pkgInfoFromPath not found")
+		run.Undecided("G-LOAD/errors-fatal", "role", "internal/registry/registry.go", "no function of the registry calls packages.Load")
 		return
 	}
 	// the expression of the error list, and locals that are exactly it
@@ -1298,6 +1354,32 @@ func CheckLoadErrorsFatal(run *core.Run, prog *load.Program) {
 		}
 		return false
 	}
+	// variables that receive helper(errs) where the helper returns a non-nil error for every non-empty list
+	var helperErrVars []*types.Var
+	ast.Inspect(f.Decl.Body, func(n ast.Node) bool {
+		as, ok := n.(*ast.AssignStmt)
+		if !ok || len(as.Lhs) != 1 || len(as.Rhs) != 1 {
+			return true
+		}
+		call, ok := ast.Unparen(as.Rhs[0]).(*ast.CallExpr)
+		if !ok {
+			return true
+		}
+		h, ok := typeutil.Callee(info, call).(*types.Func)
+		if !ok || !prog.IsMoqPkg(h.Pkg()) {
+			return true
+		}
+		for i, a := range call.Args {
+			if isErrs(a) && nonNilForNonEmpty(prog, h, i) {
+				if id, ok := ast.Unparen(as.Lhs[0]).(*ast.Ident); ok {
+					if v, ok := info.ObjectOf(id).(*types.Var); ok {
+						helperErrVars = append(helperErrVars, v)
+					}
+				}
+			}
+		}
+		return true
+	})
 	dec := func(cond ast.Expr) (bool, bool) {
 		var ev func(e ast.Expr) (bool, bool)
 		ev = func(e ast.Expr) (bool, bool) {
@@ -1316,6 +1398,12 @@ func CheckLoadErrorsFatal(run *core.Run, prog *load.Program) {
 					lt, lf := ev(be.X)
 					rt, rf := ev(be.Y)
 					return lt || (lf && rt), lf && rf
+				}
+				// err ⋈ nil where err is what a moq helper makes of the error list: non-nil for a non-empty list
+				for _, v := range helperErrVars {
+					if isT, nonNilTrue := cfgx.NilTestOf(info, be, v); isT {
+						return nonNilTrue, !nonNilTrue
+					}
 				}
 				// len(errs) ⋈ k with len >= 1 assumed
 				for _, side := range [][2]ast.Expr{{be.X, be.Y}} {
@@ -1527,4 +1615,133 @@ func CheckRecursionFanout(run *core.Run, prog *load.Program) {
 		}
 	})
 	run.Check("G-PANIC/recursion-fanout", "functions-in-cycles", "-", n >= 2, fmt.Sprintf("only %d recursive functions found", n))
+}
+
+// nonNilForNonEmpty: the moq function returns a non-nil error on every path when its i-th parameter
+// (a slice) is not empty: under len(param) >= 1 every reachable return yields something that is not
+// the nil identifier and not a plain variable.
+func nonNilForNonEmpty(prog *load.Program, h *types.Func, i int) bool {
+	d := prog.Decl(h.Origin())
+	if d == nil || d.Body == nil {
+		return false
+	}
+	info := prog.Info(h.Pkg())
+	sig := h.Type().(*types.Signature)
+	if i >= sig.Params().Len() || sig.Results().Len() != 1 {
+		return false
+	}
+	pname := sig.Params().At(i).Name()
+	f := cfgx.New(info, d)
+	// len(param) ranges over [1, 2]: decide comparisons that hold for both, explore both ways otherwise
+	dec := func(cond ast.Expr) (bool, bool) {
+		t1, f1 := lenOracleRange(info, d, pname, 1, 3)(cond)
+		return t1, f1
+	}
+	r := f.Explore(0, 0, cfgx.Cuts{Decide: dec})
+	if len(r.Exits) == 0 {
+		return false
+	}
+	for _, ex := range r.Exits {
+		rs, ok := ex.Node.(*ast.ReturnStmt)
+		if !ok || len(rs.Results) != 1 {
+			return false
+		}
+		switch x := ast.Unparen(rs.Results[0]).(type) {
+		case *ast.Ident:
+			_ = x
+			return false // nil, or a variable that may be nil
+		case *ast.CallExpr, *ast.IndexExpr, *ast.CompositeLit, *ast.UnaryExpr:
+		default:
+			return false
+		}
+	}
+	return true
+}
+
+// lenOracleRange decides comparisons of len(target) with constants for lengths in [lo, hi].
+func lenOracleRange(info *types.Info, scope ast.Node, target string, lo, hi int64) func(ast.Expr) (bool, bool) {
+	return func(cond ast.Expr) (bool, bool) {
+		canT, canF := false, false
+		for l := lo; l <= hi; l++ {
+			// lenOracleIn assumes len <= max; evaluate at exactly l by intersecting [0,l] with not [0,l-1]
+			t, f := exactLen(info, scope, target, l, cond)
+			canT = canT || t
+			canF = canF || f
+		}
+		return canT, canF
+	}
+}
+
+// exactLen evaluates a condition with len(target) == l where it only compares that length with constants.
+func exactLen(info *types.Info, scope ast.Node, target string, l int64, cond ast.Expr) (bool, bool) {
+	var ev func(e ast.Expr) (bool, bool)
+	ev = func(e ast.Expr) (bool, bool) {
+		e = ast.Unparen(e)
+		switch x := e.(type) {
+		case *ast.UnaryExpr:
+			if x.Op == token.NOT {
+				t, f := ev(x.X)
+				return f, t
+			}
+		case *ast.BinaryExpr:
+			switch x.Op {
+			case token.LAND:
+				lt, lf := ev(x.X)
+				rt, rf := ev(x.Y)
+				return lt && rt, lf || (lt && rf)
+			case token.LOR:
+				lt, lf := ev(x.X)
+				rt, rf := ev(x.Y)
+				return lt || (lf && rt), lf && rf
+			}
+			cst := func(e ast.Expr) (int64, bool) {
+				tv := info.Types[e]
+				if tv.Value == nil || tv.Value.Kind() != constant.Int {
+					return 0, false
+				}
+				return constant.Int64Val(tv.Value)
+			}
+			isLen := func(e ast.Expr) bool {
+				op, ok := LenOperand(info, scope, e)
+				return ok && types.ExprString(op) == target
+			}
+			var a, c int64
+			switch {
+			case isLen(x.X):
+				k, ok := cst(x.Y)
+				if !ok {
+					return true, true
+				}
+				a, c = l, k
+			case isLen(x.Y):
+				k, ok := cst(x.X)
+				if !ok {
+					return true, true
+				}
+				a, c = k, l
+			default:
+				return true, true
+			}
+			var res bool
+			switch x.Op {
+			case token.LSS:
+				res = a < c
+			case token.LEQ:
+				res = a <= c
+			case token.GTR:
+				res = a > c
+			case token.GEQ:
+				res = a >= c
+			case token.EQL:
+				res = a == c
+			case token.NEQ:
+				res = a != c
+			default:
+				return true, true
+			}
+			return res, !res
+		}
+		return true, true
+	}
+	return ev(cond)
 }
